@@ -3,6 +3,7 @@ Line protocol driver: one case per input line (TAB separated fields), one result
 case.  Runs the executable (`Float`) reading of the model.
 -/
 import Geodesy.Model.Wire
+import Geodesy.Model.Proj
 import Geodesy.Gen.Tables
 
 open Geodesy Geodesy.Text Geodesy.Wire
@@ -59,6 +60,7 @@ def ce : Ops.CtorEnv := { ellpsKnown := ellpsKnown }
 structure CtxSpec where
   resources : List (Str × Str)
   users : List (Str × String)
+  plain : Bool := false
 
 def mkEnv (c : CtxSpec) : Env Float :=
   { builtin := Registry.builtin Float ce
@@ -85,8 +87,9 @@ def parseCtx (fields : List String) : CtxSpec × List String :=
     | nuser :: rest =>
       let (us, rest) := takePairs nuser.toNat! rest
       let builtinRes := if kind == "new" then Gen.builtinAdaptors.map (fun p => (S p.1, S p.2)) else []
+      let builtinRes := if kind == "plain-new" then Gen.builtinAdaptors.map (fun p => (S p.1, S p.2)) else builtinRes
       ({ resources := builtinRes ++ res.map (fun p => (u p.1, u p.2)),
-         users := us.map (fun p => (u p.1, p.2)) }, rest)
+         users := us.map (fun p => (u p.1, p.2)), plain := kind.startsWith "plain" }, rest)
     | [] => ({ resources := [], users := [] }, [])
   | _ => ({ resources := [], users := [] }, [])
 
@@ -96,7 +99,11 @@ def handleOp (fields : List String) : String :=
   let (ctx, rest) := parseCtx fields
   match rest with
   | [defn, mode, dir, data] =>
-    match Op.new (mkEnv ctx) globals (u defn) with
+    -- `Plain::op` filters the definition through `parse_proj`
+    match (if ctx.plain then Proj.parseProj (u defn) else .ok (u defn)) with
+    | .error e => "err " ++ e.name
+    | .ok defn' =>
+    match Op.new (mkEnv ctx) globals defn' with
     | .error e => "err " ++ e.name
     | .ok op =>
       let tree := if mode == "tree" || mode == "both" then " tree=" ++ dumpOp op
@@ -125,8 +132,17 @@ def handleTok (fields : List String) : String :=
     else "bad-case"
   | _ => "bad-case"
 
+def handleProj (fields : List String) : String :=
+  match fields with
+  | [t] =>
+    match Proj.parseProj (u t) with
+    | .ok r => "ok " ++ escape r
+    | .error e => "err " ++ e.name
+  | _ => "bad-case"
+
 def handle (line : String) : String :=
   match line.splitOn "\t" with
+  | "PROJ" :: rest => handleProj rest
   | "OP" :: rest => handleOp rest
   | "TOK" :: rest => handleTok rest
   | kind :: _ => if kind.startsWith "S_" then "-" else "bad-case"
